@@ -7,7 +7,8 @@ import tempfile
 
 
 def rand_words(rng):
-    alpha = [b"alpha", b"Beta", b"beta", b"g-1", b"d d", b"", b"", b"x", b"ALPHA", b"z\xff", b"tab\tw"]
+    # incl. the bytes that str.splitlines (but not bytes.splitlines) treats as line ends: VT FF FS GS RS NEL, and UTF-8 text containing 0x85
+    alpha = [b"alpha", b"Beta", b"beta", b"g-1", b"d d", b"", b"", b"x", b"ALPHA", b"z\xff", b"tab\tw", b"v\x0bt", b"f\x0cf", b"a\x1cb", b"a\x1db\x1ec", b"n\x85l", b"\xc3\x85ngstr\xc3\xb6m", b"\xe2\x80\xa8u"]
     n = rng.randint(0, 7)
     return [rng.choice(alpha) for _ in range(n)]
 
